@@ -224,6 +224,189 @@ theorem dpFuel_total_gen (sqrt : α → α) (eps : α) (heps : (0 : α) < eps)
         exact ⟨o1 ++ o2, rfl⟩
 
 
+/-! ### every tie-break: `dpAllFuel` -/
+
+theorem dpAllFuel_short (sqrt : α → α) (eps : α) (fuel : Nat) (L : List (Fix α)) (h : L.length ≤ 2) :
+    dpAllFuel sqrt eps fuel L = [L] := by
+  match L, h with
+  | [], _ => rw [dpAllFuel]
+  | [_], _ => rw [dpAllFuel]
+  | [_, _], _ => rw [dpAllFuel]
+  | _ :: _ :: _ :: _, h => simp at h
+
+/-- induction principle for the runs with an arbitrary choice of the split fix -/
+theorem dpAllFuel_ind (sqrt : α → α) (eps : α) (Q : List (Fix α) → List (Fix α) → Prop)
+    (hshort : ∀ L, L.length ≤ 2 → Q L L)
+    (hchord : ∀ a p q rest,
+      (farthest sqrt a (chordEnd q rest) (a :: p :: q :: rest) 0 0 0).1 < eps →
+      Q (a :: p :: q :: rest) [a, chordEnd q rest])
+    (hsplit : ∀ (L : List (Fix α)) (i : Nat) o1 o2, Q (L.take i) o1 → Q (L.drop i) o2 → Q L (o1 ++ o2))
+    (fuel : Nat) : ∀ (L out : List (Fix α)), out ∈ dpAllFuel sqrt eps fuel L → Q L out := by
+  induction fuel with
+  | zero =>
+    intro L out h
+    by_cases hl : L.length ≤ 2
+    · rw [dpAllFuel_short _ _ _ _ hl] at h; simp at h; rw [h]; exact hshort L hl
+    · obtain ⟨a, p, q, rest, rfl⟩ := three_of_len L hl
+      rw [dpAllFuel] at h; simp at h
+  | succ fuel ih =>
+    intro L out h
+    by_cases hl : L.length ≤ 2
+    · rw [dpAllFuel_short _ _ _ _ hl] at h; simp at h; rw [h]; exact hshort L hl
+    · obtain ⟨a, p, q, rest, rfl⟩ := three_of_len L hl
+      rw [dpAllFuel] at h
+      split at h
+      · simp at h; subst h; exact hchord a p q rest (by assumption)
+      · simp only [List.mem_flatMap, List.mem_map] at h
+        obtain ⟨i, _, o1, h1, o2, h2, rfl⟩ := h
+        exact hsplit _ i o1 o2 (ih _ _ h1) (ih _ _ h2)
+
+theorem dpAllFuel_sublist (sqrt : α → α) (eps : α) (fuel : Nat) (L out : List (Fix α))
+    (h : out ∈ dpAllFuel sqrt eps fuel L) : out.Sublist L := by
+  refine dpAllFuel_ind sqrt eps (fun L out => out.Sublist L) ?_ ?_ ?_ fuel L out h
+  · intro L _; exact List.Sublist.refl _
+  · intro a p q rest _
+    refine List.Sublist.cons_cons a ?_
+    exact (List.singleton_sublist.mpr (chordEnd_mem q rest)).trans (List.sublist_cons_self p _)
+  · intro L i o1 o2 h1 h2
+    have := List.Sublist.append h1 h2
+    rwa [List.take_append_drop] at this
+
+theorem dpAllFuel_ends (sqrt : α → α) (eps : α) (fuel : Nat) (L out : List (Fix α))
+    (h : out ∈ dpAllFuel sqrt eps fuel L) : out.head? = L.head? ∧ out.getLast? = L.getLast? := by
+  refine dpAllFuel_ind sqrt eps (fun L out => out.head? = L.head? ∧ out.getLast? = L.getLast?) ?_ ?_ ?_ fuel L out h
+  · intro L _; exact ⟨rfl, rfl⟩
+  · intro a p q rest _
+    refine ⟨rfl, ?_⟩
+    rw [chordEnd_getLast?]; rfl
+  · intro L i o1 o2 h1 h2
+    constructor
+    · rw [List.head?_append, h1.1, h2.1, ← List.head?_append, List.take_append_drop]
+    · rw [List.getLast?_append, h1.2, h2.2, ← List.getLast?_append, List.take_append_drop]
+
+theorem dpAllFuel_two_le (sqrt : α → α) (eps : α) (fuel : Nat) (L out : List (Fix α))
+    (h : out ∈ dpAllFuel sqrt eps fuel L) : 2 ≤ L.length → 2 ≤ out.length := by
+  refine dpAllFuel_ind sqrt eps (fun L out => (L ≠ [] → out ≠ []) ∧ (2 ≤ L.length → 2 ≤ out.length))
+    ?_ ?_ ?_ fuel L out h |>.2
+  · intro L _; exact ⟨id, id⟩
+  · intro a p q rest _; simp
+  · intro L i o1 o2 h1 h2
+    have hl : (L.take i).length + (L.drop i).length = L.length := by
+      rw [← List.length_append, List.take_append_drop]
+    generalize L.take i = A at *
+    generalize L.drop i = B at *
+    constructor
+    · intro hL hc
+      have hc1 : o1 = [] := (List.append_eq_nil_iff.mp hc).1
+      have hc2 : o2 = [] := (List.append_eq_nil_iff.mp hc).2
+      have hA : A = [] := by
+        cases A with
+        | nil => rfl
+        | cons x xs => exact absurd hc1 (h1.1 (List.cons_ne_nil _ _))
+      have hB : B = [] := by
+        cases B with
+        | nil => rfl
+        | cons x xs => exact absurd hc2 (h2.1 (List.cons_ne_nil _ _))
+      subst hA; subst hB
+      simp at hl
+      exact hL (List.eq_nil_of_length_eq_zero hl.symm)
+    · intro h2L
+      rw [List.length_append]
+      by_cases hA2 : 2 ≤ A.length
+      · have := h1.2 hA2; omega
+      · by_cases hB2 : 2 ≤ B.length
+        · have := h2.2 hB2; omega
+        · by_cases hA0 : A = []
+          · subst hA0; simp at hl; omega
+          · by_cases hB0 : B = []
+            · subst hB0; simp at hl; omega
+            · have := List.length_pos_iff.mpr (h1.1 hA0)
+              have := List.length_pos_iff.mpr (h2.1 hB0)
+              omega
+
+/-- the farthest search returns its initial pair or (distance, index) of one scanned fix -/
+theorem farthest_witness (sqrt : α → α) (a b : Fix α) (rest : List (Fix α)) (i : Nat) (dmax : α) (imax : Nat) :
+    farthest sqrt a b rest i dmax imax = (dmax, imax) ∨
+      ∃ j, ∃ h : j < rest.length, (farthest sqrt a b rest i dmax imax).2 = i + j ∧
+        (farthest sqrt a b rest i dmax imax).1 = distFix sqrt a b rest[j] := by
+  induction rest generalizing i dmax imax with
+  | nil => left; rfl
+  | cons p rest ih =>
+    unfold farthest
+    simp only
+    split
+    · right
+      rcases ih (i + 1) (distFix sqrt a b p) i with h | ⟨j, hj, h1, h2⟩
+      · rw [h]; exact ⟨0, by simp, rfl, rfl⟩
+      · exact ⟨j + 1, by simp; omega, by omega, by simpa using h2⟩
+    · rcases ih (i + 1) dmax imax with h | ⟨j, hj, h1, h2⟩
+      · left; exact h
+      · right; exact ⟨j + 1, by simp; omega, by omega, by simpa using h2⟩
+
+theorem mem_tiesAt (sqrt : α → α) (a b : Fix α) (d : α) (rest : List (Fix α)) (i j : Nat) (hj : j < rest.length)
+    (he : (distFix sqrt a b rest[j] == d) = true) : i + j ∈ tiesAt sqrt a b d rest i := by
+  induction rest generalizing i j with
+  | nil => simp at hj
+  | cons p rest ih =>
+    rw [tiesAt]
+    cases j with
+    | zero =>
+      simp only [List.getElem_cons_zero] at he
+      simp [he]
+    | succ j =>
+      have := ih (i + 1) j (by simpa using hj) (by simpa using he)
+      have e : i + (j + 1) = i + 1 + j := by omega
+      rw [e]
+      split
+      · exact List.mem_cons_of_mem _ this
+      · exact this
+
+/-- the code's own run is one of the runs enumerated by `dpAllFuel` (reflexive `==`, positive tolerance,
+first fix at distance 0 from its chord) -/
+theorem dpFuel_mem_all [ReflBEq α] (sqrt : α → α) (eps : α) (heps : (0 : α) < eps)
+    (hd0 : ∀ a b : Fix α, ¬ (distFix sqrt a b a > 0)) (fuel : Nat) :
+    ∀ (L out : List (Fix α)), dpFuel sqrt eps fuel L = some out → out ∈ dpAllFuel sqrt eps fuel L := by
+  induction fuel with
+  | zero =>
+    intro L out h
+    by_cases hl : L.length ≤ 2
+    · rw [dpFuel_short _ _ _ _ hl] at h; cases h; rw [dpAllFuel_short _ _ _ _ hl]; simp
+    · obtain ⟨a, p, q, rest, rfl⟩ := three_of_len L hl
+      rw [dpFuel_zero] at h; cases h
+  | succ fuel ih =>
+    intro L out h
+    by_cases hl : L.length ≤ 2
+    · rw [dpFuel_short _ _ _ _ hl] at h; cases h; rw [dpAllFuel_short _ _ _ _ hl]; simp
+    · obtain ⟨a, p, q, rest, rfl⟩ := three_of_len L hl
+      rw [dpFuel_succ] at h
+      rw [dpAllFuel]
+      change out ∈ (if (farthest sqrt a (chordEnd q rest) (a :: p :: q :: rest) 0 0 0).1 < eps then _ else _)
+      split at h
+      · rename_i hlt; cases h; rw [if_pos hlt]; simp [chordEnd]
+      · rename_i hne
+        rw [if_neg hne]
+        have hin := farthest_inside sqrt eps heps a (chordEnd q rest) (p :: q :: rest) (hd0 _ _) hne
+        cases hA : dpFuel sqrt eps fuel ((a :: p :: q :: rest).take
+            (farthest sqrt a (chordEnd q rest) (a :: p :: q :: rest) 0 0 0).2) with
+        | none => rw [hA] at h; cases h
+        | some o1 =>
+          cases hB : dpFuel sqrt eps fuel ((a :: p :: q :: rest).drop
+              (farthest sqrt a (chordEnd q rest) (a :: p :: q :: rest) 0 0 0).2) with
+          | none => rw [hA, hB] at h; cases h
+          | some o2 =>
+            rw [hA, hB] at h
+            cases h
+            simp only [List.mem_flatMap, List.mem_map, List.mem_filter, decide_eq_true_eq]
+            refine ⟨(farthest sqrt a (chordEnd q rest) (a :: p :: q :: rest) 0 0 0).2, ⟨?_, hin.1⟩,
+              o1, ih _ _ hA, o2, ih _ _ hB, rfl⟩
+            rcases farthest_witness sqrt a (chordEnd q rest) (a :: p :: q :: rest) 0 0 0 with e | ⟨j, hj, e1, e2⟩
+            · rw [e] at hin; simp at hin
+            · rw [e1]
+              have hm := mem_tiesAt sqrt a (chordEnd q rest)
+                (distFix sqrt a (chordEnd q rest) (a :: p :: q :: rest)[j]) (a :: p :: q :: rest) 0 j hj (by simp)
+              rw [← e2] at hm
+              exact hm
+
 /-! ### Visvalingam -/
 
 /-- ARGMIN returns its initial index or the index of a non-NaN entry -/
